@@ -70,15 +70,20 @@ func corpus(seed int64, n int) []doc {
 		pad := strings.Repeat("x", r.Range(0, 60))
 		docs[i] = doc{
 			id:     seq.ID{MID: seq.MID(1_700_000_000_000 + uint64(i/3)), RID: seq.RID(r.U64()>>1 | 1)},
-			body:   []byte(fmt.Sprintf(`{"service":"svc%d","k8s_pod":"%s","message":"m%d %s"}`, g, podName(i), i, pad)),
-			tokens: []string{"_all_:", fmt.Sprintf("service:svc%d", g), "k8s_pod:" + podName(i)},
+			body:   []byte(fmt.Sprintf(`{"service":"%s","k8s_pod":"%s","message":"m%d %s"}`, svcName(seed, g), podName(seed, i), i, pad)),
+			tokens: []string{"_all_:", "service:" + svcName(seed, g), "k8s_pod:" + podName(seed, i)},
 		}
 	}
 	return docs
 }
 
 // podName is unique per document and long enough for the token blocks of a 1500-document fraction to exceed one block
-func podName(i int) string { return fmt.Sprintf("pod-%d-%s", i, strings.Repeat("k", 24)) }
+func podName(seed int64, i int) string {
+	return fmt.Sprintf("pod-%d-%d-%s", seed, i, strings.Repeat("k", 20))
+}
+
+// svcName: the tokens carry the corpus seed, so that two fractions in one store can be checked independently
+func svcName(seed int64, g int) string { return fmt.Sprintf("svc%ds%d", g, seed) }
 
 func bulks(docs []doc, per int) [][2][]byte {
 	var res [][2][]byte
@@ -148,7 +153,7 @@ func childMain(args []string) {
 		return qpr.IDs.IDs()
 	}
 	for g := 0; g < nGroups; g++ {
-		for _, id := range query(fmt.Sprintf("service:svc%d", g)) {
+		for _, id := range query("service:" + svcName(seed, g)) {
 			if i, ok := want[id]; ok && i%nGroups == g {
 				found[id] = true
 			} else {
@@ -158,7 +163,7 @@ func childMain(args []string) {
 	}
 	byToken := 0
 	for i := 0; i < n; i += max(1, n/40) {
-		for _, id := range query("k8s_pod:" + podName(i)) {
+		for _, id := range query("k8s_pod:" + podName(seed, i)) {
 			if id == docs[i].id {
 				byToken++
 			} else {
@@ -552,19 +557,20 @@ func (c faultCase) String() string {
 }
 
 type harness struct {
-	o       vh.Opts
-	rep     *vh.Report
-	work    string
-	chLoad  *vh.Channel
-	chTrace *vh.Channel
-	chCrash *vh.Channel
-	chFault *vh.Channel
-	orCrash *vh.Oracle
-	orFault *vh.Oracle
-	orSdocs *vh.Oracle
-	orFull  *vh.Oracle
-	tplDir  string // valid files of one fraction (docs, meta from the active fraction; sdocs, index from its sealed form)
-	tplBase string
+	o         vh.Opts
+	rep       *vh.Report
+	work      string
+	chLoad    *vh.Channel
+	chTrace   *vh.Channel
+	chCrash   *vh.Channel
+	chFault   *vh.Channel
+	orCrash   *vh.Oracle
+	orFault   *vh.Oracle
+	orSdocs   *vh.Oracle
+	orFull    *vh.Oracle
+	orOverlap *vh.Oracle
+	tplDir    string // valid files of one fraction (docs, meta from the active fraction; sdocs, index from its sealed form)
+	tplBase   string
 }
 
 func (h *harness) faultRestart(c faultCase) {
@@ -605,8 +611,8 @@ func (h *harness) faultRestart(c faultCase) {
 			site = "disk/blocks_writer.go:WriteBlocksRegistry"
 		}
 		class := "write-error-swallowed-index-published"
-		if !published {
-			class = "documents-lost-after-failed-seal"
+		if !published { // the error was reported, yet what is on disk no longer serves the documents
+			site, class = "frac/active_sealer.go:writeSealedFraction", "documents-lost-after-failed-seal"
 		}
 		h.rep.Violate(vh.Violation{Site: site, Class: class,
 			What:   fmt.Sprintf("call %d (%s section) on the index output failed, writeSealedFraction returned err=%v, published=%v; after restart the fraction serves %q of its %d documents: %s", c.k, sec, r.err, published, res.served, c.n, res.detail),
@@ -750,6 +756,44 @@ func (h *harness) diskFullSweep(skip, keep bool, n int, seed int64, points int) 
 			limit = uint64(maxSize + 1)
 		}
 		h.diskFull(skip, keep, n, seed, limit)
+	}
+}
+
+// overlap seals two fractions with the real frac.Seal such that the second seal runs completely while the first one
+// is parked right after its writeSortedDocs returned (first "seal.sec" point = before the first index block is
+// written) - what the maintenance loop's `go fm.seal(..)` does under load.  Then both are released and the store is
+// restarted: every document of both fractions must be served.
+func (h *harness) overlap(n int, seedA, seedB int64) {
+	work, _ := os.MkdirTemp(h.work, "ov")
+	defer os.RemoveAll(work)
+	a := newActive(work, seedA, n, false, false)
+	defer a.stop()
+	b := newActive(work, seedB, n+n/2, false, false)
+	defer b.stop()
+	parked := false
+	var errB error
+	verifhook.Set(func(name, _ string, args []int64) {
+		if name == "seal.sec" && len(args) == 1 && args[0] == 1 && !parked {
+			parked = true
+			_, errB = frac.Seal(b.active, sealParams)
+		}
+	})
+	_, errA := frac.Seal(a.active, sealParams)
+	verifhook.Set(nil)
+	key := fmt.Sprintf("overlap n=%d seedA=%d seedB=%d", n, seedA, seedB)
+	if errA != nil || errB != nil || !parked {
+		h.orOverlap.Error = fmt.Sprintf("%s: seals did not run as planned: errA=%v errB=%v parked=%v", key, errA, errB, parked)
+		return
+	}
+	a.active.Release()
+	b.active.Release()
+	ra := runChild(a.dir, seedA, n, false, false)
+	rb := runChild(a.dir, seedB, n+n/2, false, false)
+	h.orOverlap.Case(key, true, "servedA="+ra.served, "servedB="+rb.served)
+	if ra.served != "all" || rb.served != "all" {
+		h.rep.Violate(vh.Violation{Site: "frac/active_sealer.go:writeSortedDocs", Class: "overlapping-seals-corrupt-index",
+			What: fmt.Sprintf("fraction B was sealed completely while the seal of fraction A was between writeSortedDocs and its first index block; after release and restart A serves %q (%s) and B serves %q (%s)",
+				ra.served, ra.detail, rb.served, rb.detail), Replay: []string{key}})
 	}
 }
 
@@ -981,14 +1025,15 @@ func main() {
 	}
 	defer os.RemoveAll(work)
 	h := &harness{o: o, rep: rep, work: work,
-		chLoad:  vh.NewChannel("loader.startup", "real FracManager.Load in a child process on one fraction's directory vs SV.FileSet.startup: loaded kind (none/active/sealed/down) and the files left; quick: all 2^7 presence combinations of the non-temporary files with valid and with empty contents plus mixed samples, thorough: all 3^7 (absent/empty/valid) and all 2^7 with temporary files present; non-trivial = at least one file present"),
-		chTrace: vh.NewChannel("seal.trace", "file operations of proxyFrac.Seal (rotate + frac.Seal + Active.Release through FracManager) observed at the fileop.* points vs SV.SealOps.sealTrace, for the four SkipSortDocs x KeepMetaFile settings"),
-		chCrash: vh.NewChannel("seal.crash", "per point of the seal: which of the nine files exist in the snapshot and what a restart (child process: Load, search every group, fetch every document) serves vs the model state after the same prefix and SV.FileSet.served"),
-		chFault: vh.NewChannel("seal.fault", "writeSealedFraction on an io.WriteSeeker whose k-th Seek/Write fails (k = 0..all+1; once, and from k on) vs SV.SealOps.writeIndex with the extracted generator facts and the section sizes measured on the fault-free run: result, calls issued, whether an error was dropped; non-trivial = the fault fired"),
-		orCrash: vh.NewOracle("crash.restart", "restart from the directory as it is at every file-operation boundary of sealing and release must serve every document - also with every sealing output that exists but was not fsynced since its last write cut short (quick: one random length, thorough: 0 / half / all-but-one byte); non-trivial = a point strictly inside the seal or a torn variant"),
-		orFault: vh.NewOracle("fault.restart", "after writeSealedFraction ran on an output whose k-th call failed, the harness does what frac.Seal/proxyFrac.Seal do next (error: nothing; nil: syncRename, directory sync, Active.Release) and restarts: every document must be served; quick: every k whose error was dropped (up to 6) + every 5th k, thorough: every k, once and persistent; non-trivial = the fault fired"),
-		orFull:  vh.NewOracle("seal.diskfull", "the real rotate + proxyFrac.Seal in a child process whose RLIMIT_FSIZE is lowered before the seal, so that every write growing a file beyond the limit fails (EFBIG) - limits spread from 16 bytes to the size of the largest sealed file; then a restart must serve every document; non-trivial = the seal failed"),
-		orSdocs: vh.NewOracle("sdocs.fault", "writeDocsInOrder on an io.Writer whose k-th write fails must return an error (or panic in the deferred release); non-trivial = the fault fired"),
+		chLoad:    vh.NewChannel("loader.startup", "real FracManager.Load in a child process on one fraction's directory vs SV.FileSet.startup: loaded kind (none/active/sealed/down) and the files left; quick: all 2^7 presence combinations of the non-temporary files with valid and with empty contents plus mixed samples, thorough: all 3^7 (absent/empty/valid) and all 2^7 with temporary files present; non-trivial = at least one file present"),
+		chTrace:   vh.NewChannel("seal.trace", "file operations of proxyFrac.Seal (rotate + frac.Seal + Active.Release through FracManager) observed at the fileop.* points vs SV.SealOps.sealTrace, for the four SkipSortDocs x KeepMetaFile settings"),
+		chCrash:   vh.NewChannel("seal.crash", "per point of the seal: which of the nine files exist in the snapshot and what a restart (child process: Load, search every group, fetch every document) serves vs the model state after the same prefix and SV.FileSet.served"),
+		chFault:   vh.NewChannel("seal.fault", "writeSealedFraction on an io.WriteSeeker whose k-th Seek/Write fails (k = 0..all+1; once, and from k on) vs SV.SealOps.writeIndex with the extracted generator facts and the section sizes measured on the fault-free run: result, calls issued, whether an error was dropped; non-trivial = the fault fired"),
+		orCrash:   vh.NewOracle("crash.restart", "restart from the directory as it is at every file-operation boundary of sealing and release must serve every document - also with every sealing output that exists but was not fsynced since its last write cut short (quick: one random length, thorough: 0 / half / all-but-one byte); non-trivial = a point strictly inside the seal or a torn variant"),
+		orFault:   vh.NewOracle("fault.restart", "after writeSealedFraction ran on an output whose k-th call failed, the harness does what frac.Seal/proxyFrac.Seal do next (error: nothing; nil: syncRename, directory sync, Active.Release) and restarts: every document must be served; quick: every k whose error was dropped (up to 6) + every 5th k, thorough: every k, once and persistent; non-trivial = the fault fired"),
+		orFull:    vh.NewOracle("seal.diskfull", "the real rotate + proxyFrac.Seal in a child process whose RLIMIT_FSIZE is lowered before the seal, so that every write growing a file beyond the limit fails (EFBIG) - limits spread from 16 bytes to the size of the largest sealed file; then a restart must serve every document; non-trivial = the seal failed"),
+		orOverlap: vh.NewOracle("seal.overlap", "two fractions sealed with the real frac.Seal, the second completely inside the window in which the first has returned from writeSortedDocs but not yet written its first index block (forced at the seal.sec point); after Release of both and a restart every document of both must be searchable and fetchable"),
+		orSdocs:   vh.NewOracle("sdocs.fault", "writeDocsInOrder on an io.Writer whose k-th write fails must return an error (or panic in the deferred release); non-trivial = the fault fired"),
 	}
 	rng := vh.NewRNG(o.Seed)
 	if o.Replay != "" {
@@ -1006,6 +1051,10 @@ func main() {
 				h.faultRestart(faultCase{kv["skip"] == "1", kv["keep"] == "1", atoi("n"), seed, atoi("k"), kv["persistent"] == "1"})
 			case strings.HasPrefix(l, "crash "):
 				h.crashSweep(kv["skip"] == "1", kv["keep"] == "1", atoi("n"), seed, rng, false)
+			case strings.HasPrefix(l, "overlap "):
+				sa, _ := strconv.ParseInt(kv["seedA"], 10, 64)
+				sb, _ := strconv.ParseInt(kv["seedB"], 10, 64)
+				h.overlap(atoi("n"), sa, sb)
 			case strings.HasPrefix(l, "diskfull "):
 				lim, _ := strconv.ParseUint(kv["limit"], 10, 64)
 				h.diskFull(kv["skip"] == "1", kv["keep"] == "1", atoi("n"), seed, lim)
@@ -1034,6 +1083,11 @@ func main() {
 		if only("load") {
 			h.loaderChannel(rng)
 		}
+		if only("overlap") {
+			for i := 0; i < o.Pick(2, 6); i++ {
+				h.overlap(o.Pick(300, 1200)+97*i, seed+20+int64(2*i), seed+21+int64(2*i))
+			}
+		}
 		if only("diskfull") {
 			h.diskFullSweep(false, false, o.Pick(800, 3000), seed+6, o.Pick(8, 40))
 			h.diskFullSweep(true, false, o.Pick(800, 3000), seed+7, o.Pick(5, 25))
@@ -1049,6 +1103,7 @@ func main() {
 	rep.AddOracle(h.orCrash)
 	rep.AddOracle(h.orFault)
 	rep.AddOracle(h.orFull)
+	rep.AddOracle(h.orOverlap)
 	rep.AddOracle(h.orSdocs)
 	sort.SliceStable(rep.Violations, func(i, j int) bool { return rep.Violations[i].Site < rep.Violations[j].Site })
 	rep.Write(o.Out)
